@@ -37,6 +37,7 @@ def parseOp (s : String) : Option Op :=
   | ["range2"] => some .range2
   | ["swf", k, v] => do some (.storeWithFunc (← k.toNat?) (← parseVal v))
   | ["lwf", k, d] => do some (.loadWithFunc (← k.toNat?) (← d.toNat?))
+  | ["loswfn", k, v] => do some (.loadOrStoreWithFunc (← k.toNat?) 0 (← parseVal v))   -- nil onLoad callback = the identity
   | ["loswf", k, d, v] => do some (.loadOrStoreWithFunc (← k.toNat?) (← d.toNat?) (← parseVal v))
   | ["rwf", k, "inc", d] => do some (.replaceWithFunc (← k.toNat?) (.inc (← d.toNat?)))
   | ["rwf", k, "del"] => do some (.replaceWithFunc (← k.toNat?) .del)
